@@ -218,6 +218,19 @@ func stopScenarios(hist string, full bool) []e1.Scenario {
 				sc := base(fmt.Sprintf("%s/%s/inject-%s@%d", hist, pacing, name, at), hist, pacing)
 				sc.Attempts = []e1.Attempt{att(simmaster.Plan{At: at, Kind: "inject", Inject: inj[name], Final: "silent"})}
 				out = append(out, sc)
+				if name == "tiny" || name == "truncated" {
+					// two malformed packets in a row: when the first one ends the stream
+					// the reader holds (or is about to hold) another one that nobody validated
+					sc := base(fmt.Sprintf("%s/%s/inject-%s@%d/twice", hist, pacing, name, at), hist, pacing)
+					sc.Attempts = []e1.Attempt{att(simmaster.Plan{At: at, Kind: "inject", Inject: inj[name], Repeat: 2, Final: "silent"})}
+					out = append(out, sc)
+					// ... and the caller cancels while the reader holds the malformed packet
+					sc = base(fmt.Sprintf("%s/%s/inject-%s@%d/cancel", hist, pacing, name, at), hist, pacing)
+					a := att(simmaster.Plan{At: at, Kind: "inject", Inject: inj[name], Final: "silent"})
+					a.Cancel = &e1.Trigger{Kind: "released", N: at}
+					sc.Attempts = []e1.Attempt{a}
+					out = append(out, sc)
+				}
 				if name == "badtablemap" || strings.HasPrefix(name, "unknownid") {
 					// ... and with the master ending the stream cleanly afterwards: an
 					// event the parser silently skipped must not turn into a clean end
